@@ -57,8 +57,15 @@ fn date_parts() -> Vec<(&'static str, bool, usize)> {
         ("yyyyéMMédd", true, 0),
         ("yyyy年MM月dd日", true, 0),
         ("d€M€y", true, 0),
+        // two-digit years: the text does not determine the year, so only "parses, and re-formats to
+        // the same text" is demanded (has_date = false); no field derived from the full year appears
+        ("yy-MM-dd", false, 0),
+        ("d.M.yy", false, 0),
     ]
 }
+
+/// further two-digit-year patterns, met by every year of a window in the dedicated sweep
+const YY_PATTERNS: [&str; 6] = ["yy-MM-dd", "d.M.yy", "yyMMdd", "MM/dd/yy", "yy", "dd MMM yy"];
 
 fn time_parts() -> Vec<(&'static str, bool)> {
     // (pattern, carries the time of day to the nanosecond?)
@@ -189,6 +196,14 @@ fn case_roundtrip(p: &Pat, day: i64, nod: u64, off: i32, acc: &mut Acc) {
         // exist in the first (partial) year of the range
         return;
     }
+    if p.kind != 1 && has_two_digit_year(&p.text) {
+        // a two-digit year before year -9 is read back as a year of the current century, whose
+        // February need not have 29 days: that text cannot be required to parse
+        let f = ins::decompose(local);
+        if year <= -10 && f.month == 2 && f.dom == 29 {
+            return;
+        }
+    }
     if p.kind != 1 && !p.text.contains('y') {
         // without a year field the parsed year defaults to 0001: 29 February cannot be carried
         let f = ins::decompose(local);
@@ -267,6 +282,25 @@ fn case_roundtrip(p: &Pat, day: i64, nod: u64, off: i32, acc: &mut Acc) {
     }
 }
 
+/// true when the pattern (outside quoted text) has a run of exactly two `y`
+fn has_two_digit_year(pattern: &str) -> bool {
+    let mut quoted = false;
+    let mut run = 0;
+    let mut found = false;
+    for c in pattern.chars().chain(std::iter::once(' ')) {
+        if c == '\'' {
+            quoted = !quoted;
+        }
+        if c == 'y' && !quoted {
+            run += 1;
+        } else {
+            found |= run == 2;
+            run = 0;
+        }
+    }
+    found
+}
+
 /// fields absent from the pattern default to 0001-01-01, 00:00:00, UTC
 fn case_defaults(acc: &mut Acc) {
     acc.transitions += 3;
@@ -290,10 +324,11 @@ pub fn run(ctx: &Ctx) -> i32 {
     let mut rep = Report::new(ctx);
     rep.rule = "states = distinct (pattern, value) pairs admitted by the quantifier's side conditions; transitions = real format -> parse -> format chains; parse must succeed, re-formatting must reproduce the string, full patterns must recover instant and offset, absent fields default; non-trivial = round trips of full date+time+zone patterns".into();
     rep.assumptions = vec![
-        "the pattern set is generated from lists of date parts, time parts, zone symbols and separators that satisfy the unambiguous-field grammar; yy and narrow names are excluded as the statement says".into(),
+        "the pattern set is generated from lists of date parts, time parts, zone symbols and separators that satisfy the unambiguous-field grammar; narrow names are excluded as the statement says".into(),
+        "two-digit years (yy) do not determine the year: for them only 'parses, and re-formats to the same text' is demanded, in patterns without fields derived from the full year (e, w, D, G), and 29 February of years before -9 is skipped (it is read back into the current century)".into(),
         "derived fields (G, q, w, e) appear only together with the fields that determine them".into(),
     ];
-    rep.require(&["reproduced", "full-pattern-instant-recovered", "defaults"]);
+    rep.require(&["reproduced", "full-pattern-instant-recovered", "defaults", "two-digit-year"]);
     let pats = patterns();
     let vals = values(ctx.thorough);
     let thorough = ctx.thorough;
@@ -311,6 +346,34 @@ pub fn run(ctx: &Ctx) -> i32 {
             acc.sample(json!({"pattern": p.text, "value": [d, n, o]}));
         }
     });
+    // two-digit years: every year of a window (both eras, every residue modulo 100 and 400) with the
+    // month/day menu, for Date and for DateTime under three offsets
+    let ylo: i64 = if thorough { -12_000 } else { -2_500 };
+    let yhi: i64 = if thorough { 12_000 } else { 2_500 };
+    let md: [(u32, u32); 6] = [(1, 1), (2, 28), (2, 29), (3, 1), (10, 9), (12, 31)];
+    let yy_pats: Vec<Pat> = YY_PATTERNS.iter().flat_map(|t| {
+        [
+            Pat { text: t.to_string(), kind: 0, full: false, zone_secs: false, zone: false, max_year_digits: 0, has_date: false, has_time: false },
+            Pat { text: format!("{} HH:mm xxx", t), kind: 2, full: false, zone_secs: false, zone: true, max_year_digits: 0, has_date: false, has_time: false },
+        ]
+    }).collect();
+    let years = (yhi - ylo + 1) as u64;
+    let per_year = (md.len() * yy_pats.len() * 3) as u64;
+    rep.sweep("two-digit years: every year of the window x month/day menu x yy patterns", years * per_year, "parse succeeds and re-formatting reproduces the text (the year itself is not determined by the text)", |i, acc| {
+        let y = ylo + (i / per_year) as i64;
+        let r = i % per_year;
+        let p = &yy_pats[(r % yy_pats.len() as u64) as usize];
+        let r = r / yy_pats.len() as u64;
+        let (m, d) = md[(r % md.len() as u64) as usize];
+        let off = [0i32, 19_800, -34_200][(r / md.len() as u64) as usize];
+        if y == 0 || (p.kind == 0 && off != 0) {
+            return;
+        }
+        if let Some(day) = cal::valid_day(y, m, d) {
+            case_roundtrip(p, day, 45_296_000_000_000, off, acc);
+            acc.branch("two-digit-year");
+        }
+    });
     let mut acc = Acc::default();
     case_defaults(&mut acc);
     rep.acc.merge(acc);
@@ -320,7 +383,12 @@ pub fn run(ctx: &Ctx) -> i32 {
 
 pub fn replay(_op: &str, case: &Value, acc: &mut Acc) -> bool {
     let text = case["pattern"].as_str().unwrap().to_string();
-    if let Some(p) = patterns().into_iter().find(|p| p.text == text && p.kind as u64 == case["kind"].as_u64().unwrap()) {
+    let kind = case["kind"].as_u64().unwrap();
+    if has_two_digit_year(&text) {
+        let zone = text.ends_with("xxx");
+        let p = Pat { text, kind: kind as u8, full: false, zone_secs: false, zone, max_year_digits: 0, has_date: false, has_time: false };
+        case_roundtrip(&p, case["day"].as_i64().unwrap(), case["nod"].as_str().unwrap().parse().unwrap(), case["off"].as_i64().unwrap() as i32, acc);
+    } else if let Some(p) = patterns().into_iter().find(|p| p.text == text && p.kind as u64 == kind) {
         case_roundtrip(&p, case["day"].as_i64().unwrap(), case["nod"].as_str().unwrap().parse().unwrap(), case["off"].as_i64().unwrap() as i32, acc);
     } else {
         case_defaults(acc);
